@@ -1176,6 +1176,175 @@ fn keep_task(_v: &mut Vec<tokio::task::JoinHandle<()>>, h: tokio::task::JoinHand
     drop(h);
 }
 
+// ---------------------------------------------------------------------------------------------------
+// crafted subscriptions: events that do not apply to the mirror's contents
+// ---------------------------------------------------------------------------------------------------
+
+#[derive(Debug, serde::Serialize, serde::Deserialize)]
+enum CraftedVecInitial {
+    Value(Vec<u32>),
+    Incremental { len: usize, rx: remoc::rch::mpsc::Receiver<u32> },
+}
+
+/// Look-alike of `VecSubscription<u32>` (same wire representation, built from public API only).
+#[derive(Debug, serde::Serialize, serde::Deserialize)]
+struct CraftedVecSub {
+    initial: CraftedVecInitial,
+    events: Option<remoc::rch::broadcast::Receiver<VecEvent<u32>>>,
+}
+
+#[derive(Debug, serde::Serialize, serde::Deserialize)]
+enum CraftedDequeInitial {
+    Value(VecDeque<u32>),
+    Incremental { len: usize, rx: remoc::rch::mpsc::Receiver<u32> },
+}
+
+#[derive(Debug, serde::Serialize, serde::Deserialize)]
+struct CraftedDequeSub {
+    initial: CraftedDequeInitial,
+    events: Option<remoc::rch::broadcast::Receiver<VecDequeEvent<u32>>>,
+}
+
+macro_rules! crafted_runner {
+    ($fname:ident, $name:expr, $Std:ty, $Sub:ty, $Crafted:ident, $CraftedInit:ident, $Ev:ident, $applyfn:path, $good:expr, $bad:expr) => {
+        /// A subscription whose event stream contains one event that does not apply to the contents
+        /// (index out of range, also exactly one past the end): the mirror must report InvalidIndex, keep
+        /// reporting it, and keep the last consistent contents.
+        pub fn $fname(run: u64, seed: u64) -> RunOut {
+            let mut rng = Rng::new(seed);
+            let mut out = RunOut::default();
+            let panics0 = crate::mem::panic_count();
+            let prefix = crate::clock::thread_prefix();
+            install_h1(rng.fork(1), 0, 0);
+            let mut rng2 = rng.fork(2);
+            let mut descs: Vec<String> = Vec::new();
+            let res: Result<(), String> = run_virtual(seed, async {
+                let (net, a, mut b, sched) = connect_rch_hetero::<$Crafted, (), (), $Sub>(rch_cfg(&mut rng2), rch_cfg(&mut rng2), draw_netcfg(&mut rng2), &mut rng2).await?;
+                let RchEnd { tx: mut tx_a, rx: _rx_a, conn: _ca } = a;
+                let events_tx: remoc::rch::broadcast::Sender<$Ev<u32>> = remoc::rch::broadcast::Sender::new();
+                let events_rx = events_tx.subscribe(BIG);
+                let init: $Std = (0..rng.usize_below(6)).map(|_| val(&mut rng)).collect();
+                let crafted = $Crafted { initial: $CraftedInit::Value(init.clone()), events: Some(events_rx) };
+                let ship = crate::sched::spawn(async move {
+                    let r = tx_a.send(crafted).await.map_err(|e| e.to_string());
+                    (r, tx_a)
+                });
+                let sub = match or_quiescent(b.rx.recv()).await {
+                    Some(Ok(Some(s))) => s,
+                    other => return Err(format!("crafted subscription did not arrive: {:?}", other.map(|r| r.map(|o| o.is_some()).map_err(|e| e.to_string())))),
+                };
+                let mirror = sub.mirror(BIG);
+                let mut state = init.clone();
+                // valid prefix
+                for _ in 0..rng.usize_below(8) {
+                    let ev: $Ev<u32> = $good(&mut rng, &state);
+                    descs.push(format!("{ev:?}"));
+                    let _ = $applyfn(&mut state, ev.clone());
+                    let _ = events_tx.send(ev);
+                }
+                let (bad, bad_index): ($Ev<u32>, usize) = $bad(&mut rng, &state);
+                descs.push(format!("NON-APPLYING {bad:?} (len {})", state.len()));
+                let _ = events_tx.send(bad);
+                // events after it must not be applied
+                for _ in 0..rng.usize_below(3) {
+                    let ev: $Ev<u32> = $good(&mut rng, &state);
+                    descs.push(format!("after: {ev:?}"));
+                    let _ = events_tx.send(ev);
+                }
+                settle().await;
+                let replay = json!({"run": run, "seed": seed, "collection": $name, "variant": "crafted-non-applying-event", "initial": format!("{init:?}"), "events": descs});
+                match or_quiescent(mirror.borrow()).await {
+                    Some(Err(RecvError::InvalidIndex(i))) if i == bad_index => out.count("non_applying_events_reported", 1),
+                    Some(Err(e)) => out.viol(format!("C14:{}:wrong-error", $name), format!("non-applying event (index {bad_index}, len {}) was reported as {e}", state.len()), replay.clone()),
+                    Some(Ok(view)) => {
+                        let got: $Std = (*view).clone();
+                        out.viol(
+                            format!("C14:{}:non-applying-event-not-reported", $name),
+                            format!("an event that does not apply (index {bad_index}, contents have {} elements) raised no error; the mirror now presents {got:?}", state.len()),
+                            replay.clone(),
+                        );
+                    }
+                    None => out.viol(format!("C14:{}:borrow-pending", $name), "borrow pending at quiescence".to_string(), replay.clone()),
+                }
+                if let Some(last) = or_quiescent(mirror.detach()).await {
+                    if last != state {
+                        out.viol(format!("C14:{}:detach-not-last-consistent", $name), format!("detach() returned {last:?}, last consistent contents were {state:?}"), replay.clone());
+                    }
+                }
+                out.item("variants", format!("{}:crafted", $name));
+                let mut h = Fnv::new();
+                h.add_str($name);
+                for d in &descs {
+                    h.add_str(d);
+                }
+                out.case_hash = Some(h.get());
+                drop((net, sched, ship, events_tx));
+                Ok(())
+            });
+            uninstall_h1();
+            if let Err(e) = res {
+                out.inconclusive = Some(e);
+            }
+            for p in crate::mem::panics_since(&prefix, panics0) {
+                out.viol("C14:panic", format!("panic at {}: {}", p.location, p.message), json!({"run": run, "seed": seed, "collection": $name, "events": descs}));
+            }
+            out
+        }
+    };
+}
+
+fn good_vec_event(rng: &mut Rng, s: &Vec<u32>) -> VecEvent<u32> {
+    let n = s.len();
+    match rng.below(6) {
+        0 if n > 0 => VecEvent::Set(rng.usize_below(n), val(rng)),
+        1 if n > 0 => VecEvent::Remove(rng.usize_below(n)),
+        2 if n > 0 => VecEvent::SwapRemove(rng.usize_below(n)),
+        3 => VecEvent::Insert(rng.usize_below(n + 1), val(rng)),
+        4 => VecEvent::Pop,
+        _ => VecEvent::Push(val(rng)),
+    }
+}
+
+fn bad_vec_event(rng: &mut Rng, s: &Vec<u32>) -> (VecEvent<u32>, usize) {
+    let n = s.len();
+    let over = if rng.chance(60) { 0 } else { 1 + rng.usize_below(20) };
+    match rng.below(4) {
+        0 => (VecEvent::Insert(n + 1 + over, 1), n + 1 + over),
+        1 => (VecEvent::Set(n + over, 1), n + over),
+        2 => (VecEvent::Remove(n + over), n + over),
+        _ => (VecEvent::SwapRemove(n + over), n + over),
+    }
+}
+
+fn good_deque_event(rng: &mut Rng, s: &VecDeque<u32>) -> VecDequeEvent<u32> {
+    let n = s.len();
+    match rng.below(8) {
+        0 if n > 0 => VecDequeEvent::Set(rng.usize_below(n), val(rng)),
+        1 if n > 0 => VecDequeEvent::Remove(rng.usize_below(n)),
+        2 if n > 0 => VecDequeEvent::SwapRemoveBack(rng.usize_below(n)),
+        3 if n > 0 => VecDequeEvent::SwapRemoveFront(rng.usize_below(n)),
+        4 => VecDequeEvent::Insert(rng.usize_below(n + 1), val(rng)),
+        5 => VecDequeEvent::PopFront,
+        6 => VecDequeEvent::PushFront(val(rng)),
+        _ => VecDequeEvent::PushBack(val(rng)),
+    }
+}
+
+fn bad_deque_event(rng: &mut Rng, s: &VecDeque<u32>) -> (VecDequeEvent<u32>, usize) {
+    let n = s.len();
+    let over = if rng.chance(60) { 0 } else { 1 + rng.usize_below(20) };
+    match rng.below(5) {
+        0 => (VecDequeEvent::Insert(n + 1 + over, 1), n + 1 + over),
+        1 => (VecDequeEvent::Set(n + over, 1), n + over),
+        2 => (VecDequeEvent::Remove(n + over), n + over),
+        3 => (VecDequeEvent::SwapRemoveBack(n + over), n + over),
+        _ => (VecDequeEvent::SwapRemoveFront(n + over), n + over),
+    }
+}
+
+crafted_runner!(c14_crafted_vec, "vec", Vec<u32>, VecSubscription<u32>, CraftedVecSub, CraftedVecInitial, VecEvent, vec_apply, good_vec_event, bad_vec_event);
+crafted_runner!(c14_crafted_deque, "vec_deque", VecDeque<u32>, VecDequeSubscription<u32>, CraftedDequeSub, CraftedDequeInitial, VecDequeEvent, deque_apply, good_deque_event, bad_deque_event);
+
 pub fn c13_run(run: u64, seed: u64) -> RunOut {
     match run % 9 {
         0 | 1 => c13_vec(run, seed),
@@ -1187,7 +1356,12 @@ pub fn c13_run(run: u64, seed: u64) -> RunOut {
 }
 
 pub fn c14_run(run: u64, seed: u64) -> RunOut {
-    match run % 9 {
+    match run % 11 {
+        9 => return c14_crafted_vec(run, seed),
+        10 => return c14_crafted_deque(run, seed),
+        _ => {}
+    }
+    match run % 11 {
         0 | 1 => c14_vec(run, seed),
         2 | 3 => c14_deque(run, seed),
         4 | 5 => c14_map(run, seed),
